@@ -249,6 +249,10 @@ def d2(cx: Cx, ob: Ob) -> None:
             continue
         for t, line in outs:
             ob.site(f"{where(fn, line)} {fn.qualname}", f"{text}: {show(t)[:50]}")
+            if w in ("P", "S", "R") and op(t) == "call" and op(t[1]) == "attr" and op(t[1][1]) == "call" and op(t[1][1][1]) == "cls" and t[1][1][1][1] in cx.model.classes and any(x == data for x in subterms(t[1][1])):
+                # the argument is wrapped in a helper object of the package and that object does the loading
+                ob.undecide(f"_prepare leaves loading ({text}) to `{show(t)[:50]}`, a method of a helper object: what it opens and parses is not followed")
+                continue
             if w in ("P", "S"):
                 bad = loads_argument(t)
                 if bad:
@@ -515,6 +519,10 @@ def d4(cx: Cx, ob: Ob) -> None:
             ob.undecide("provenance of prefix / prefix_synonyms in upgrade_prefix_map not unique")
             continue
         head, tail = pv[0], sv[0]
+        if op(head) not in ("item", "slice", "call") and op(tail) not in ("item", "slice", "call"):
+            # fields of an object this rule does not look into (a helper that carries the ranked group)
+            ob.undecide(f"upgrade_prefix_map takes prefix / prefix_synonyms from `{show(head)[:30]}` / `{show(tail)[:30]}`: how that object was filled is not followed")
+            continue
         if not (op(head) == "item" and is_const(head[2], 0) and op(tail) == "slice" and tail[1] == head[1] and is_const(tail[2], 1) and is_const(tail[3], None)):
             ob.violate(fn.qualname, where(fn, line), f"prefix / prefix_synonyms are `{show(head)[:40]}` / `{show(tail)[:40]}`: not head and tail of the same sequence (a duplicate prefix is dropped or repeated)", detail="head-tail")
             continue
